@@ -205,10 +205,10 @@ func boundsText(thorough bool) string {
 	tri := len(filter(func(p piece) bool { return p.tri }))
 	red := len(filter(func(p piece) bool { return p.red }))
 	if thorough {
-		return fmt.Sprintf("G: vocabulary %d lexemes, 7 separators: singles x 7x7 frames, pairs x 7 separators x 4 frames, triples over %d lexemes x 7 equal separators, triples over %d lexemes x 7x7 separators x 2 frames; B: length <= 6 over %d symbols; S: bodies of <= 3 atoms over %d atoms x {interpreted, raw} x {alone, followed by ' x'}",
+		return fmt.Sprintf("G: vocabulary %d lexemes, 7 separators: singles x 7x7 frames, pairs x 7 separators x 4 frames, triples over %d lexemes x 7 equal separators, triples over %d lexemes x 7x7 separators x 2 frames; B: length <= 6 over %d symbols; X: all 1- and 2-byte strings over the 256 byte values x 4 frames; S: bodies of <= 3 atoms over %d atoms x {interpreted, raw} x {alone, followed by ' x'}",
 			len(vocabulary), tri, red, len(alphabetB), len(atomsS))
 	}
-	return fmt.Sprintf("G: vocabulary %d lexemes, 7 separators: singles x 7x7 frames, pairs x 7 separators x 4 frames; B: length <= 5 over %d symbols; S: bodies of <= 2 atoms over %d atoms x {interpreted, raw} x {alone, followed by ' x'}",
+	return fmt.Sprintf("G: vocabulary %d lexemes, 7 separators: singles x 7x7 frames, pairs x 7 separators x 4 frames; B: length <= 5 over %d symbols; X: all 1- and 2-byte strings over the 256 byte values x 4 frames; S: bodies of <= 2 atoms over %d atoms x {interpreted, raw} x {alone, followed by ' x'}",
 		len(vocabulary), len(alphabetB), len(atomsS))
 }
 
@@ -303,6 +303,25 @@ func buildSpaces(thorough bool) []space {
 			}
 		}
 		rec(A[i/len(A)]+A[i%len(A)], 2)
+	}})
+
+	// X: every byte value, alone and in pairs, in four frames (alone, after a name, before a name, between
+	// names): the class alphabet of B has one representative per class, this space has every member
+	sp = append(sp, space{name: "X-all-bytes", chunks: 257, run: func(i int, emit func(string, []genTok)) {
+		frames := [][2]string{{"", ""}, {"a", ""}, {"", "a"}, {"a", " b"}}
+		if i == 256 {
+			for b := 0; b < 256; b++ {
+				for _, f := range frames {
+					emit(f[0]+string([]byte{byte(b)})+f[1], nil)
+				}
+			}
+			return
+		}
+		for b := 0; b < 256; b++ {
+			for _, f := range frames {
+				emit(f[0]+string([]byte{byte(i), byte(b)})+f[1], nil)
+			}
+		}
 	}})
 
 	// S: string-literal bodies
